@@ -12,8 +12,9 @@
    "k%04d" so that the model orders keys as the store does):
      invw T k=v,k=~,... | invw T -      wlock T  wlink T I  wassign T S  wpick T 0|1  wunlock T  wlog T
      winsert T  wdrop T  wlock2 T  whead T 0|1  wwake T  wpublish T S  wunlink T  wret T
+     wfail T  wlockf T  wunlinkf T  wretf T   (a write the log refused)
      invget T K   invscan T LO HI  (- = unbounded)   snap T TS   rmem T 0|1  rimm T 0|1  rtree T 0|1
-     retget T none|tomb|V   scannext T none | scannext T K V   retscan T
+     retget T none|tomb|absent|V   (rtree T ? and retget T absent: see `alternatives`)   scannext T none | scannext T K V   retscan T
      flock fwait frollover flink I fhead 0|1 fwake funlink funlock fseal finstall ID SZ flock2 fclear trigger *)
 open Gen_conc
 
@@ -43,6 +44,16 @@ let batch_of (s : string) =
       | _ -> failwith ("bad batch entry " ^ kv))
       (String.split_on_char ',' s)
 
+(* Canonicalisation: the real tree may have garbage-collected a tombstone that nothing older lies
+   under (C05), after which the key reads as "not found" instead of "tombstone"; the model's tree
+   is never compacted.  `rtree T ?` and `retget T absent` stand for either reading of a deleted
+   key: the alternatives are tried in turn. *)
+let alternatives (line : string) : string list =
+  match String.split_on_char ' ' (String.trim line) |> List.filter (fun x -> x <> "") with
+  | ["rtree"; t; "?"] -> ["rtree " ^ t ^ " 0"; "rtree " ^ t ^ " 1"]
+  | ["retget"; t; "absent"] -> ["retget " ^ t ^ " none"; "retget " ^ t ^ " tomb"]
+  | _ -> [line]
+
 let parse_label (line : string) : label =
   match String.split_on_char ' ' (String.trim line) |> List.filter (fun x -> x <> "") with
   | ["invw"; t; b] -> LInvW (tid_of t, batch_of b)
@@ -60,6 +71,10 @@ let parse_label (line : string) : label =
   | ["wpublish"; t; s] -> LWPublish (tid_of t, n_of_int (int_of_string s))
   | ["wunlink"; t] -> LWUnlink (tid_of t)
   | ["wret"; t] -> LWRet (tid_of t)
+  | ["wfail"; t] -> LWFail (tid_of t)
+  | ["wlockf"; t] -> LWLockF (tid_of t)
+  | ["wunlinkf"; t] -> LWUnlinkF (tid_of t)
+  | ["wretf"; t] -> LWRetF (tid_of t)
   | ["invget"; t; k] -> LInvR (tid_of t, QGet (key_of k))
   | ["invscan"; t; lo; hi] -> LInvR (tid_of t, QScan (okey_of lo, okey_of hi))
   | ["snap"; t; ts] -> LSnap (tid_of t, n_of_int (int_of_string ts))
@@ -105,15 +120,20 @@ let () =
                 let l = String.trim (input_line stdin) in
                 if l = "end" then raise Exit;
                 if l <> "" && !verdict = None then begin
-                  let lab = parse_label l in
-                  (match stepf !st lab with
-                   | None -> verdict := Some (Printf.sprintf "REJECT %d %s" !idx l)
-                   | Some st' ->
-                       st := st';
-                       if not unrepaired then
-                         (match sstep !sp lab with
-                          | None -> verdict := Some (Printf.sprintf "SPECREJECT %d %s" !idx l)
-                          | Some sp' -> sp := sp'));
+                  let rec attempt = function
+                    | [] -> verdict := Some (Printf.sprintf "REJECT %d %s" !idx l)
+                    | a :: rest ->
+                        let lab = parse_label a in
+                        (match stepf !st lab with
+                         | None -> attempt rest
+                         | Some st' ->
+                             st := st';
+                             if not unrepaired then
+                               (match sstep !sp lab with
+                                | None -> verdict := Some (Printf.sprintf "SPECREJECT %d %s" !idx l)
+                                | Some sp' -> sp := sp'))
+                  in
+                  attempt (alternatives l);
                   incr idx
                 end
               done
